@@ -16,7 +16,7 @@
    every run by executing the composed model AND two real stacks on the same scenarios (complete traces compared,
    event by event) and judging the implementation traces with the extracted check_C04 below. *)
 From PS Require Import Lib.Base Generated.Consts Model.SdTypes Model.Config Model.Session Model.StackTypes Model.Stack
-  Model.StackIO Model.System Spec.C08Spec Spec.C04Spec Proofs.C07Proofs Proofs.WorldInv Proofs.SystemProofs Model.Skel Generated.LogicGen Proofs.GenSkel Proofs.KeyEquiv Proofs.WorldInv2 Proofs.WorldLog Proofs.WorldSubs Proofs.FoundLog Proofs.WorldFound Proofs.SystemInv Proofs.SystemWhole.
+  Model.StackIO Model.System Spec.C08Spec Spec.C04Spec Proofs.C07Proofs Proofs.WorldInv Proofs.SystemProofs Model.Skel Generated.LogicGen Proofs.GenSkel Proofs.KeyEquiv Proofs.WorldInv2 Proofs.WorldLog Proofs.WorldSubs Proofs.FoundLog Proofs.WorldFound Proofs.SystemInv Proofs.SystemWhole Proofs.WorldLogTime Proofs.WorldExpiry.
 
 Theorem C04_crash_is_silent : forall t b nd fuel rv arrived w tr,
   node_step t b nd fuel rv [CCrash] arrived w tr = (None, match w with Some x => out x ++ tr | None => tr end, [], true).
@@ -82,6 +82,16 @@ Theorem C04_listener_histories_truthful_in_the_composition : forall sc w,
         (forall a k, up_l id a k (out w) = stored a k w && regm id k w) /\ altl id (out w) = true).
 Proof. exact sys_listener_histories. Qed.
 
+(* the time-dependent invariants too - every collector hands over within its timeout (C15), every expiry exactly TTL
+   after the latest refresh (C09) - while every settle of the run completed (sy_ok: no iteration budget ran out); each
+   stack is then quiet between the instants of the composition and its clock is the composition's *)
+Theorem C04_timed_invariants_in_the_composition : forall sc w,
+  fresh_insts (nd_insts (ss_a sc)) -> fresh_insts (nd_insts (ss_b sc)) ->
+  sy_ok (fst (sys_run_scenario sc)) = true ->
+  (sy_a (fst (sys_run_scenario sc)) = Some w \/ sy_b (fst (sys_run_scenario sc)) = Some w) ->
+  GGT [] w /\ GGR [] w /\ ready w = [] /\ now w = sy_now (fst (sys_run_scenario sc)).
+Proof. exact sys_timed. Qed.
+
 (* steps of the convergence argument, for every world: a received Offer (TTL > 0) of a watched service is recorded
    whatever was stored before, and every recording listener registered for it has "offered" as its latest notification;
    a Subscribe for a running matching instance is recorded before it is acknowledged (C06_instance_records_then_answers),
@@ -117,3 +127,4 @@ Print Assumptions C04_whole_run_invariants_in_the_composition.
 Print Assumptions C04_listener_histories_truthful_in_the_composition.
 Print Assumptions C04_received_offer_is_recorded.
 Print Assumptions C04_received_offer_is_reported.
+Print Assumptions C04_timed_invariants_in_the_composition.
